@@ -17,8 +17,11 @@ Theorem c09_survives : forall g evs,
   no_listener_loss evs -> no_make_failure evs -> no_signal evs ->
   serving_result (run g evs) = StillServing.
 Proof. exact c09_survives_events. Qed.
+(* no_signal: the signal is resolved neither from outside (ESignal) nor by the make-service from
+   inside the accept loop (EMakeSignal) *)
 Check c09_survives : forall g evs,
-  ~ In ELost evs -> ~ In EMakeFail evs -> ~ In ESignal evs -> serving_result (run g evs) = StillServing.
+  ~ In ELost evs -> ~ In EMakeFail evs ->
+  (~ In ESignal evs /\ forall n, ~ In (EMakeSignal n) evs) -> serving_result (run g evs) = StillServing.
 Print Assumptions c09_survives.
 
 (* ... and at every quiescent point (OQuiet), reading the counters of the trace so far: the future
@@ -56,5 +59,9 @@ Example c09_example :
 Proof.
   cbv zeta. split; [vm_compute; reflexivity |]. split; [vm_compute; reflexivity |].
   unfold no_listener_loss, no_make_failure, no_signal. cbn.
-  repeat split; intros H; repeat (destruct H as [H | H]; [discriminate |]); contradiction.
+  repeat split; unfold not; intros;
+    repeat match goal with
+    | H : _ \/ _ |- _ => destruct H as [H | H]; [discriminate |]
+    | H : False |- _ => contradiction
+    end.
 Qed.
